@@ -160,7 +160,7 @@ def parse_file(path: str) -> List[Contract]:
             cur_loop = None
             mm = re.match(r'(after|before|replace)\s+/(.*)/\s+(\S+)\s+\[([^\]]*)\]\s*$', arg) or \
                  re.match(r'(start)()\s+(\S+)\s+\[([^\]]*)\]\s*$', arg) or \
-                 re.match(r'(loophead|loopbody|loopend)\s+(\d+)\s+(\S+)\s+\[([^\]]*)\]\s*$', arg)
+                 re.match(r'(loophead|loopbody|loopend|loopinit)\s+(\d+)\s+(\S+)\s+\[([^\]]*)\]\s*$', arg)
             if not mm:
                 raise ContractError('%s: @proof after|before /re/ <id> [tags]  or  @proof start <id> [tags]' % where)
             cur.proofs.append(ProofSplice(mode=mm.group(1), regex=mm.group(2) or None, text=rest_lines,
